@@ -7,9 +7,8 @@
               into nested containers), find_name / dict_find_name, resolve_name (package loop,
               parent chain, longest match), Activation.resolve_variable / __getattr__,
     Evaluator.member_dot and the transpiled `.get('f')` on a NameContainer / MapType,
-    macro variable binding: interpreter `nested_eval.evaluate({x: v})` (= clone + load_values into
-    the SAME container), transpiled `activation.nested_activation(vars={x: v})` (= a new container
-    in front of the chain).
+    macro variable binding: `nested_activation(vars={x: v})` (= a new container in front of the
+    parent chain) in both runners.
 
   A `NameContainer` is a list of entries `name ↦ Node`; a `Node` is a `Referent`: annotation, value
   and the entries of its nested container (no entries = `container is None`; load_* never leaves an
@@ -175,13 +174,11 @@ inductive NE where
 inductive Runner | I | C
   deriving DecidableEq, Repr
 
-/-- binding of a macro variable: the interpreter loads it into (a clone of) the current container,
-the transpiled code puts a fresh container in front of the chain -/
-def bindVar (r : Runner) (chain : List NC) (x : String) (v : Val) : List NC :=
-  match r, chain with
-  | .I, nc :: rest => setValue nc [x] v :: rest
-  | .I, [] => [setValue [] [x] v]
-  | .C, chain => setValue [] [x] v :: chain
+/-- binding of a macro variable: a fresh container `{x: v}` in front of the chain, for both runners
+(transpiled: `activation.nested_activation(vars={x: v})`; interpreter: the sub-expression evaluator's
+`set_activation` uses `nested_activation` as well) -/
+def bindVar (_r : Runner) (chain : List NC) (x : String) (v : Val) : List NC :=
+  setValue [] [x] v :: chain
 
 def mapOpt {α β : Type} (f : α → Option β) : List α → Option (List β)
   | [] => some []
